@@ -330,9 +330,19 @@ def run_selout_traces(ctx, per_property="C05"):
     evals = 0
     distinct = set()
     hist = {"inputs_with_rows": 0, "errors": 0, "mixed_switch_cases": 0, "blocks": {}}
-    for i in range(n):
-        inp, users = gi.selout_input(ctx.rng)
-        cfg = make_cfg(ctx.rng, users)
+    ninv = ctx.n(2, 30)
+    hist["inverse_inputs"] = ninv
+    for i in range(n + ninv):
+        if i < ninv:
+            # INVERSE_MODELING punches through its own routine (punch_model)
+            from gens import threads as gth
+            inp, users = gth.inverse(ctx.rng)[1], [1]
+            cfg = make_cfg(ctx.rng, users, allow_mixed=False)
+            cfg["strsw"][1] = True
+            cfg["filesw"][1] = True
+        else:
+            inp, users = gi.selout_input(ctx.rng)
+            cfg = make_cfg(ctx.rng, users)
         res = one_case(ctx, exe, inp, users, cfg)
         evals += 1
         if "crash" in res:
@@ -371,7 +381,10 @@ def handle_result(ctx, inp, cfg, res, mixed):
     for key, text in res["oracle"]:
         m = __import__("re").match(r"sel (\d+):", text)
         n_user = int(m.group(1)) if m else None
-        if key in ("sel-string-rows", "sel-file-rows", "sel-file-ne-string") and n_user in res.get("redefined", []):
+        if key in ("sel-string-rows", "sel-file-rows") and "INVERSE_MODELING" in inp and "-inverse_modeling true" in inp:
+            # punch_model never signals end-of-row: file/string rows > table rows (known finding, see known_findings.txt)
+            ctx.finding("inverse-rows-not-in-table", text, dict(rep, oracle=res["oracle"][:5]))
+        elif key in ("sel-string-rows", "sel-file-rows", "sel-file-ne-string") and n_user in res.get("redefined", []):
             ctx.finding("selected-output-redefined-within-call", text, dict(rep, oracle=res["oracle"][:5]))
         elif key.startswith("sel-") and mixed:
             ctx.finding("get_sel_out_string_on-ignores-n", text, dict(rep, oracle=res["oracle"][:5]))
